@@ -28,6 +28,10 @@ pub struct Opts {
     pub serde_path: String,
     pub visibility: String,
     pub query_file: Option<String>,
+    /// derive delivery form: the text inside `#[graphql(...)]` as the user wrote it. When set, the implementation's
+    /// options are NOT built from the fields above but by the derive's own option builder from this text (see
+    /// `derive_front`); the fields above stay what the model and the oracles are told.
+    pub derive_attr: Option<String>,
 }
 
 impl Default for Opts {
@@ -47,6 +51,7 @@ impl Default for Opts {
             serde_path: "::serde".into(),
             visibility: "pub".into(),
             query_file: None,
+            derive_attr: None,
         }
     }
 }
@@ -132,6 +137,7 @@ impl Opts {
             "response_derives": self.response_derives, "variables_derives": self.variables_derives,
             "scalars_module": self.scalars_module, "extern_enums": self.extern_enums,
             "serde_path": self.serde_path, "visibility": self.visibility,
+            "derive_attribute": self.derive_attr,
         })
     }
 }
@@ -196,7 +202,22 @@ pub fn quiet_panics() {
 
 /// The real generator, library route.
 pub fn run_real(schema_path: &Path, query_text: &str, opts: &Opts) -> RealOutcome {
-    let o = opts.to_real();
+    let o = match &opts.derive_attr {
+        None => opts.to_real(),
+        Some(attr) => {
+            let ident = opts.struct_ident.clone().unwrap_or_default();
+            let qfile = opts.query_file.clone().unwrap_or_default();
+            match catch_unwind(AssertUnwindSafe(|| crate::derive_front::options_from_attr(attr, &opts.visibility, &ident, Path::new(&qfile)))) {
+                Ok(Ok(mut o)) => {
+                    // the consumer crates of the harness name serde directly
+                    o.set_serde_path(syn::parse_str(&opts.serde_path).expect("serde path"));
+                    o
+                }
+                Ok(Err(e)) => return RealOutcome::Err(format!("derive options: {}", e)),
+                Err(p) => return RealOutcome::Panic(panic_message(p)),
+            }
+        }
+    };
     match catch_unwind(AssertUnwindSafe(|| {
         graphql_client_codegen::generate_module_token_stream_from_string(query_text, schema_path, o)
     })) {
